@@ -126,6 +126,17 @@ fn main() {
             println!("radix 16, max_significant_digits 1: write(1.0) = {:?} (expected \"1.0\")", r.as_ref().map_err(|_| "PANIC"));
             if matches!(&r, Ok(s) if s == "1.0") { 0 } else { 1 }
         },
+        // F12: a contiguous component iterator over a buffer whose format has a separator for OTHER components never counted
+        // the digits it returned through `next()`, so the integer parser reported Empty
+        #[cfg(feature = "format")]
+        "f12" => {
+            use core::num::NonZeroU8;
+            const FRAC: u128 = lexical_core::NumberFormatBuilder::new().digit_separator(NonZeroU8::new(b'_')).fraction_internal_digit_separator(true).build_strict();
+            let o = lexical_core::ParseIntegerOptions::new();
+            let r = lexical_core::parse_with_options::<u64, FRAC>(b"12", &o);
+            println!("format with fraction-internal separators only: parse::<u64>(\"12\") = {r:?} (expected Ok(12))");
+            if r == Ok(12) { 0 } else { 1 }
+        },
         _ => { eprintln!("unknown witness"); 2 },
     };
     std::process::exit(if code > 0 { 1 } else { 0 });
